@@ -13,7 +13,10 @@ res = open(BASE + "/out/matrix_%s.jsonl" % lane, "a")
 for job in jobs:
     mut, ids = job.split(":")
     subprocess.run(["git", "-C", scratch, "checkout", "-q", "--", "."], check=True)
-    subprocess.run(["git", "-C", scratch, "apply", BASE + "/seeded/%s/patch.diff" % mut], check=True)
+    pf = BASE + "/seeded/%s/patch.diff" % mut
+    if not os.path.exists(pf):
+        pf = BASE + "/mutants/%s.patch" % mut        # property-preserving changes (DESIGN 13.6) and the reintroduced defects live there
+    subprocess.run(["git", "-C", scratch, "apply", pf], check=True)
     for cid in ids.split(","):
         t = time.time()
         p = subprocess.run(["nice", "-n", "10", "./check", cid], cwd=BASE, env=dict(os.environ, VERIF_REPO=scratch, VERIF_LANE=lane), stdout=subprocess.PIPE, stderr=subprocess.STDOUT, text=True)
